@@ -340,6 +340,10 @@ def short(scn):
             s += 'X'
         elif node['out'] == 'raise_empty':
             s += 'X0'
+        elif node['out'] == 'raise_base':
+            s += 'XB'
+        if node.get('cx'):
+            s += '/cx'
         if node.get('cdelay'):
             s += '/cd%s' % node['cdelay']
         if node.get('sd'):
@@ -352,6 +356,6 @@ def short(scn):
         ('' if scn.get('thash', 'asc') == 'asc' else ' thash=%s' % scn['thash']) \
         + ('' if not scn.get('pre') else ' pre=%s' % (scn['pre'],)) \
         + ('' if not scn.get('late') else ' late=%s' % (scn['late'],)) \
-        + ('' if not scn.get('peek') else ' peek') \
+        + ('' if not scn.get('peek') else ' peek=%s' % scn['peek']) \
         + ('' if not scn.get('build') else ' build=%s' % scn['build']) \
         + ('' if not scn.get('dangle') else ' dangle=%s' % (scn['dangle'],))
